@@ -91,7 +91,7 @@ Qed.
 
 Ltac split_good H :=
   unfold ugood in H; rewrite !andb_true_iff in H;
-  destruct H as ((((((((((G1 & G2) & G3) & G4) & G5) & G6) & G7) & G8) & G9) & G10) & G11).
+  destruct H as (((((((((((G1 & G2) & G3) & G4) & G5) & G6) & G7) & G8) & G9) & G10) & G11) & G12).
 
 (* exactly one value is sent and received; both threads finish together, when it has been passed *)
 Lemma one_value p s : reachable p s ->
